@@ -333,3 +333,13 @@ CLAIMED.update({
          "note": STD_NOTE + ORDER_NOTE,
          "technique": "static analysis: evaluation of extracted delivery code over finite pending/callback domains (K6), sibling agreement (K7), reaching-definition freshness across user callbacks (K9), must-precede ordering (K3)"},
 })
+CLAIMED.update({
+ "C20": {"level": "other",
+         "text": "Direction consistency of bufferevent timeouts: every function in a bufferevent_ops disable slot, evaluated on every (events argument, enabled word[, connecting]) combination, "
+                 "disarms exactly the directions of its argument independently of bev->enabled (the suspend paths rely on that); enable slots arm only under the matching argument bit; the "
+                 "generic timeout callbacks and the EV_TIMEOUT branches of the socket callbacks disable and report their own direction (twins) without attempting I/O; "
+                 "bufferevent_generic_adj_timeouts_ on all 256 (enabled, suspended, timeout set, output pending, add failure) combinations arms/disarms per the documented rule; "
+                 "bufferevent_set_timeouts stores or clears each timeout and calls the adj_timeouts slot once. Declined: timing, reset-on-progress over transfer histories.",
+         "note": STD_NOTE + ORDER_NOTE,
+         "technique": "static analysis: evaluation of extracted slot functions over finite argument/state domains (K6), twin comparison of read/write siblings (K7), guard rule for enable slots (K4)"},
+})
